@@ -122,7 +122,9 @@ pub fn parse_u64(s: &str) -> Option<u64> {
     if let Some(h) = s.strip_prefix("0x") {
         u64::from_str_radix(h, 16).ok()
     } else {
-        s.parse::<u64>().ok().or_else(|| s.parse::<i64>().ok().map(|v| v as u64))
+        s.parse::<u64>()
+            .ok()
+            .or_else(|| s.parse::<i64>().ok().map(|v| v as u64))
     }
 }
 
@@ -232,10 +234,21 @@ pub fn par_fold_chunked<A>(
 where
     A: Send + serde::Serialize + serde::de::DeserializeOwned,
 {
-    if let (Some(a), Some(b), Some(out)) = (cli.opts.get("chunk-from"), cli.opts.get("chunk-to"), cli.opts.get("chunk-out")) {
+    if let (Some(a), Some(b), Some(out)) = (
+        cli.opts.get("chunk-from"),
+        cli.opts.get("chunk-to"),
+        cli.opts.get("chunk-out"),
+    ) {
         let a: u64 = a.parse().map_err(|_| "bad --chunk-from".to_string())?;
         let b: u64 = b.parse().map_err(|_| "bad --chunk-to".to_string())?;
-        let (acc, _) = par_fold(b.saturating_sub(a), cli.workers, None, &init, |acc, k| step(acc, a + k), &mut merge);
+        let (acc, _) = par_fold(
+            b.saturating_sub(a),
+            cli.workers,
+            None,
+            &init,
+            |acc, k| step(acc, a + k),
+            &mut merge,
+        );
         let bytes = serde_json::to_vec(&acc).map_err(|e| format!("chunk accumulator: {}", e))?;
         std::fs::write(out, bytes).map_err(|e| format!("{}: {}", out, e))?;
         return Ok(None);
@@ -253,15 +266,26 @@ where
         let out = dir.join(format!("{}-{}-{}.json", cli.target, std::process::id(), a));
         let mut cmd = std::process::Command::new(&cli.exe);
         cmd.args(std::env::args().skip(1));
-        cmd.arg("--chunk-from").arg(a.to_string()).arg("--chunk-to").arg(b.to_string()).arg("--chunk-out").arg(&out);
-        let st = cmd.status().map_err(|e| format!("cannot start chunk process: {}", e))?;
+        cmd.arg("--chunk-from")
+            .arg(a.to_string())
+            .arg("--chunk-to")
+            .arg(b.to_string())
+            .arg("--chunk-out")
+            .arg(&out);
+        let st = cmd
+            .status()
+            .map_err(|e| format!("cannot start chunk process: {}", e))?;
         if !st.success() {
             let _ = std::fs::remove_file(&out);
-            return Err(format!("chunk process for runs {}..{} ended with {:?}", a, b, st));
+            return Err(format!(
+                "chunk process for runs {}..{} ended with {:?}",
+                a, b, st
+            ));
         }
         let bytes = std::fs::read(&out).map_err(|e| format!("{}: {}", out.display(), e))?;
         let _ = std::fs::remove_file(&out);
-        let part: A = serde_json::from_slice(&bytes).map_err(|e| format!("chunk accumulator {}: {}", out.display(), e))?;
+        let part: A = serde_json::from_slice(&bytes)
+            .map_err(|e| format!("chunk accumulator {}: {}", out.display(), e))?;
         merge(&mut total, part);
         a = b;
     }
@@ -288,7 +312,14 @@ impl<'de> serde::Deserialize<'de> for Violation {
             "C20" => "C20",
             _ => Box::leak(v.property.into_boxed_str()),
         };
-        Ok(Violation { property, class: v.class, sig: v.sig, message: v.message, run_index: v.run_index, replay: v.replay })
+        Ok(Violation {
+            property,
+            class: v.class,
+            sig: v.sig,
+            message: v.message,
+            run_index: v.run_index,
+            replay: v.replay,
+        })
     }
 }
 
@@ -444,7 +475,10 @@ impl Evidence {
         let wall = self.started.elapsed().as_secs_f64();
         let mut cov = serde_json::Map::new();
         cov.insert("evaluations".into(), json!(self.evaluations));
-        cov.insert("distinct_nontrivial".into(), json!(self.distinct_nontrivial));
+        cov.insert(
+            "distinct_nontrivial".into(),
+            json!(self.distinct_nontrivial),
+        );
         cov.insert("rule".into(), json!(self.rule));
         cov.insert("samples".into(), Value::Array(self.samples.clone()));
         cov.insert("exhaustive".into(), json!(false));
@@ -504,10 +538,9 @@ pub fn conclude(cli: &Cli, ev: &mut Evidence, mut violations: Vec<Violation>) ->
             continue;
         }
         n_new += 1;
-        let path = verif_root().join("replays").join(format!(
-            "{}-{:x}-{}.json",
-            v.property, cli.seed, i
-        ));
+        let path = verif_root()
+            .join("replays")
+            .join(format!("{}-{:x}-{}.json", v.property, cli.seed, i));
         let mut replay = v.replay.clone();
         if let Value::Object(m) = &mut replay {
             m.insert("property".into(), json!(v.property));
@@ -517,7 +550,11 @@ pub fn conclude(cli: &Cli, ev: &mut Evidence, mut violations: Vec<Violation>) ->
             );
         }
         if let Err(e) = write_json(&path, &replay) {
-            eprintln!("harness error: cannot write replay {}: {}", path.display(), e);
+            eprintln!(
+                "harness error: cannot write replay {}: {}",
+                path.display(),
+                e
+            );
             exit = EXIT_HARNESS;
             continue;
         }
@@ -531,8 +568,7 @@ pub fn conclude(cli: &Cli, ev: &mut Evidence, mut violations: Vec<Violation>) ->
         let ok = match out {
             Ok(o) => {
                 let so = String::from_utf8_lossy(&o.stdout);
-                o.status.code() == Some(EXIT_VIOLATION)
-                    && so.contains(&format!("sig={} ", v.sig))
+                o.status.code() == Some(EXIT_VIOLATION) && so.contains(&format!("sig={} ", v.sig))
             }
             Err(_) => false,
         };
@@ -553,7 +589,8 @@ pub fn conclude(cli: &Cli, ev: &mut Evidence, mut violations: Vec<Violation>) ->
             v.property,
             path.display()
         );
-        reported.push(json!({"sig": v.sig, "class": v.class, "replay": path.display().to_string()}));
+        reported
+            .push(json!({"sig": v.sig, "class": v.class, "replay": path.display().to_string()}));
         exit = EXIT_VIOLATION;
     }
     ev.violations = n_new;
@@ -693,7 +730,6 @@ fn describe_exit(st: &std::process::ExitStatus) -> String {
     }
 }
 
-
 /// Is every thread of process `pid` blocked (state S or D ... here: sleeping) and has the process
 /// used no CPU since the previous sample? Returns (all_blocked, cpu_ticks).
 fn proc_blocked(pid: u32) -> Option<(bool, u64)> {
@@ -735,7 +771,12 @@ const DEADLOCK_SAMPLES: u32 = 15; // x 200 ms
 
 /// Parent side: run indices 0..n in worker processes
 /// (`exe <target> --mode worker --from a --to b` + the forwarded options).
-pub fn supervise(cli: &Cli, n: u64, forward: &[(&str, String)], per_run_timeout_s: u64) -> Supervised {
+pub fn supervise(
+    cli: &Cli,
+    n: u64,
+    forward: &[(&str, String)],
+    per_run_timeout_s: u64,
+) -> Supervised {
     use std::io::{BufRead, BufReader};
     use std::process::{Command, Stdio};
     let chunk = (n / (cli.workers as u64 * 8)).clamp(8, 2000);
